@@ -188,6 +188,7 @@ class Run:
         self.faults_fired = {}
         self.fired_excs = []
         self.pending = []
+        self.handed = []
         self.hooks = {}
         self.ga_armed = {}
         self.spawned = 0
@@ -617,6 +618,8 @@ class Run:
     def _end(self, a, tx, r, exc, before):
         a.stack.pop()
         a.tstack.pop()
+        if r is not None and hasattr(r, "cr_frame") and hasattr(r, "send"):
+            self.handed.append(r)  # a coroutine handed back by a sync call: somebody else may await it later
         after = self.marker()
         if exc is not None:
             verdict = verdict_of_exc(exc)
@@ -959,6 +962,11 @@ class World:
 
                 def raw(t, **kwargs):
                     return run.body()
+
+        elif fs.get("returns_coro"):
+            # a plain ``def`` that hands back a coroutine for the caller to await (a sync facade delegating to async code)
+            def raw(t):
+                return run.abody()
 
         elif fs.get("async") and fs.get("offload"):
             # an ``async def`` layer (functools.wraps) around a plain function - what an "off-load to an executor" decorator produces;
